@@ -11,7 +11,7 @@ WT="$(mktemp -d /tmp/seedwt.XXXXXX)"; rmdir "$WT"
 OUT="$(mktemp -d /tmp/seedrun.XXXXXX)"
 git -C /repo worktree add -q --detach "$WT" HEAD || exit 3
 trap 'git -C /repo worktree remove --force "$WT" 2>/dev/null; rm -rf "$WT" "$OUT"' EXIT
-demo="$D/demo_test.go"
+demo="$D/demo_test.go"; [ -f "$demo" ] || demo="$D/demo_test.go.txt"
 pkg=$(grep -m1 '^package ' "$demo" | awk '{print $2}')
 case "$pkg" in valid|valid_test) pd=valid;; file|file_test) pd=file;; main) pd=.;; *) pd=valid;; esac
 tests=$(grep -o '^func Test[A-Za-z0-9_]*' "$demo" | sed 's/func //' | paste -sd'|')
